@@ -19,6 +19,17 @@ const msPrefix = "github.com/alpacahq/marketstore/v4/"
 
 var raceLogOff int64
 
+// runTag is appended to the signature of races found in the current seed: the
+// SCHED engines set "|cold-start" for runs in which clients start before the
+// background WAL writer task has run (the inline flushes of such a run execute
+// the whole flush path on two goroutines at once — one known root cause with an
+// open-ended family of racing pairs).
+var runTag string
+
+// raceScope: for a property whose subject is one component, only races with
+// at least one access inside that package count (the others belong to C18).
+var raceScope = map[string]string{"C26": "replication."}
+
 func raceLogFile() string {
 	for _, kv := range strings.Fields(os.Getenv("GORACE")) {
 		if strings.HasPrefix(kv, "log_path=") {
@@ -124,9 +135,13 @@ func collectRaces(res *Result, prop string, seed uint64) {
 			res.Count("race-reports-simulator-state", 1)
 			continue
 		}
+		if sc := raceScope[prop]; sc != "" && !strings.HasPrefix(a, sc) && !strings.HasPrefix(b, sc) {
+			res.Count("race-reports-outside-property-scope", 1)
+			continue
+		}
 		pair := []string{a, b}
 		sort.Strings(pair)
-		sig := prop + "|data-race|" + pair[0] + " <-> " + pair[1]
+		sig := prop + "|data-race|" + pair[0] + " <-> " + pair[1] + runTag
 		if seen[sig] {
 			continue
 		}
@@ -147,14 +162,14 @@ func firstLoc(st []raceFrame) string {
 	for _, f := range st {
 		if strings.HasPrefix(f.fn, msPrefix) && !strings.Contains(f.fn, "/zzverif/") {
 			loc := f.loc
-			if i := strings.Index(loc, "/v4/"); i >= 0 {
-				loc = loc[i+4:]
+			// keep the path inside the repository, whatever checkout was built:
+			// the function's package path tells where that starts
+			pkg := strings.TrimPrefix(f.fn, msPrefix)
+			if i := strings.Index(pkg, "."); i >= 0 {
+				pkg = pkg[:i]
 			}
-			// scratch checkouts differ in their prefix: keep the path inside the repository
-			for _, root := range []string{"/repo/", "/wt-race/"} {
-				if i := strings.Index(loc, root); i >= 0 {
-					loc = loc[i+len(root):]
-				}
+			if i := strings.LastIndex(loc, "/"+pkg+"/"); i >= 0 {
+				loc = loc[i+1:]
 			}
 			return loc
 		}
